@@ -2,7 +2,8 @@
    Nothing but statements, closed by [exact], each followed by Print Assumptions. *)
 From Coq Require Import ZArith QArith List Bool.
 From RV Require Import Base.Wire Base.Text Lang.PyAst Lang.PySem Gen.SafeCasts Lang.ConstEval Lang.ConstEnv
-  Lang.ConstFlow Proofs.ConstEvalP Proofs.ConstEnvP Proofs.ConstEnvFreshP Proofs.ConstEnvSplitP Proofs.ConstFlowP.
+  Lang.ConstFlow Lang.ConstTuple Lang.ConstNodes Proofs.ConstEvalP Proofs.ConstEnvP Proofs.ConstEnvFreshP Proofs.ConstEnvSplitP
+  Proofs.ConstFlowP Proofs.ConstTupleP Proofs.ConstNodesP.
 Import ListNotations.
 Open Scope Z_scope.
 
@@ -248,3 +249,99 @@ Theorem C03_def_time_global_refuted :
   def_ok w_def_prefix [n_q] [SObs (OLen n_s)] [] = true.
 Proof. exact def_time_global_refuted. Qed.
 Print Assumptions C03_def_time_global_refuted.
+
+(* ---- tuple assignment  x1, ..., xn = e1, ..., en  (Lang/ConstTuple.v).  The transpiler evaluates every right-hand side -
+   for the emitted code into a temporary __tmp_assign_k, for the constant environment into evaluated_values - BEFORE it
+   rebinds any target.  In the statement language that is the block [tuple_assign_with ts xs es] (temporaries first, then
+   the targets from the temporaries); every theorem above quantifies over all programs, hence over programs containing
+   such blocks at any depth.  What remains is that the block means what Python means: for every environment, every arity
+   and any overlap between targets and right-hand sides (swaps, rotations, a right-hand side reading an earlier target),
+   the block leaves every name of the script bound exactly as Python's simultaneous assignment does, provided the
+   temporaries are distinct names the statement does not use *)
+Theorem C03_peval_reads_only : forall e rho rho',
+  (forall x, reads x e = true -> lookup x rho' = lookup x rho) -> peval rho' e = peval rho e.
+Proof. exact peval_frame. Qed.
+Print Assumptions C03_peval_reads_only.
+
+Theorem C03_tuple_assign_is_simultaneous : forall ts xs es rho rho' orc,
+  tmps_fresh ts xs es = true -> length ts = length es ->
+  py_tuple_assign xs es rho = Some rho' ->
+  exists rho'', rblock (tuple_assign_with ts xs es) orc rho = Some (rho'', [], orc) /\
+                forall y, ~ In y ts -> lookup y rho'' = lookup y rho'.
+Proof. exact tuple_assign_simultaneous. Qed.
+Print Assumptions C03_tuple_assign_is_simultaneous.
+
+Theorem C03_tuple_assign_undefined : forall ts xs es rho orc,
+  tmps_fresh ts xs es = true -> length ts = length es -> peval_all rho es = None ->
+  rblock (tuple_assign_with ts xs es) orc rho = None.
+Proof. exact tuple_assign_undefined. Qed.
+Print Assumptions C03_tuple_assign_undefined.
+
+(* a swap of two strings of different length and a rotation of three ints, inside the freshness guard: the folded
+   lengths / glyph rows are those of the values after a real swap *)
+Example C03_tuple_nonvacuous :
+  tmps_fresh (tmp_names 0 2) [n_ta; n_tb] swap_es = true /\
+  is_fresh (w_swap (tuple_assign 0 [n_ta; n_tb] swap_es)) = true /\
+  python_outputs (w_swap (tuple_assign 0 [n_ta; n_tb] swap_es)) [] = Some [VInt 6; VInt 2] /\
+  python_outputs (w_swap (tuple_assign 0 [n_ta; n_tb] swap_es ++ tuple_assign 2 [n_ta; n_tb] swap_es)) [] = Some [VInt 2; VInt 6] /\
+  is_fresh (w_rot (tuple_assign 0 [n_ta; n_tb; n_tc] rot_es)) = true /\
+  python_outputs (w_rot (tuple_assign 0 [n_ta; n_tb; n_tc] rot_es)) [] =
+    Some [VTuple [VInt 9; VInt 4; VInt 17; VInt 0; VInt 0; VInt 0; VInt 0; VInt 0]].
+Proof. exact tuple_nonvacuous. Qed.
+Print Assumptions C03_tuple_nonvacuous.
+
+(* evaluating everything first is forced: updating the constant environment target by target while the right-hand
+   side is still being evaluated bakes in len(b) = 6 after  a, b = b, a  and glyph rows 9, 9, 9 after a rotation *)
+Theorem C03_tuple_sequential_refuted :
+  firmware_outputs (w_swap (tuple_sequential [n_ta; n_tb] swap_es)) [] = Some [VInt 6; VInt 6] /\
+  firmware_outputs (w_swap (tuple_assign 0 [n_ta; n_tb] swap_es)) [] = Some [VInt 6; VInt 2] /\
+  python_outputs (w_swap (tuple_assign 0 [n_ta; n_tb] swap_es)) [] = Some [VInt 6; VInt 2] /\
+  firmware_outputs (w_rot (tuple_sequential [n_ta; n_tb; n_tc] rot_es)) [] =
+    Some [VTuple [VInt 9; VInt 9; VInt 9; VInt 0; VInt 0; VInt 0; VInt 0; VInt 0]] /\
+  firmware_outputs (w_rot (tuple_assign 0 [n_ta; n_tb; n_tc] rot_es)) [] =
+    Some [VTuple [VInt 9; VInt 4; VInt 17; VInt 0; VInt 0; VInt 0; VInt 0; VInt 0]].
+Proof. exact tuple_sequential_refuted. Qed.
+Print Assumptions C03_tuple_sequential_refuted.
+
+(* ---- parse first, emit afterwards (Lang/ConstNodes.v): an IR node that bakes a list holds a list OBJECT, printed only
+   when the whole script has been parsed.  The parser gives every flash_pattern node an object of its own; hence what is
+   emitted - nodes resolved against the FINAL store and node heap - is the residual whose constants are the lists as
+   they were at each call, for every script; and the simulation theorems hold for the two-phase pipeline *)
+Theorem C03_emitted_is_snapshot : forall p,
+  emitted false p = match tblock p [] [] with Some (_, _, res, _) => Some res | None => None end.
+Proof. exact emitted_is_snapshot. Qed.
+Print Assumptions C03_emitted_is_snapshot.
+
+Theorem C03_ir_firmware_eq : forall p orc, firmware_outputs_ir false p orc = firmware_outputs p orc.
+Proof. exact ir_firmware_eq. Qed.
+Print Assumptions C03_ir_firmware_eq.
+
+Theorem C03_ir_flow_partial : forall p orc out,
+  flow_ok p = true -> python_outputs p orc = Some out -> firmware_outputs_ir false p orc = Some out.
+Proof. exact ir_flow_sound. Qed.
+Print Assumptions C03_ir_flow_partial.
+
+(* the copy is forced: a node that aliases the tracked list (a shortcut for lists of plain ints) makes EVERY
+   flash_pattern(pat) call bake in the final contents of pat - straight-line, inside is_fresh - and lets a mutation in
+   a branch that is not taken reach an earlier call *)
+Theorem C03_node_alias_refuted :
+  firmware_outputs_ir true w_flash_mut [] =
+    Some [VList [VInt 0; VInt 1; VInt 0; VInt 128]; VList [VInt 0; VInt 1; VInt 0; VInt 128]; VList [VInt 0; VInt 1; VInt 0; VInt 128]] /\
+  python_outputs w_flash_mut [] =
+    Some [VList [VInt 1; VInt 0; VInt 1]; VList [VInt 1; VInt 0; VInt 1; VInt 0; VInt 128]; VList [VInt 0; VInt 1; VInt 0; VInt 128]] /\
+  firmware_outputs_ir false w_flash_mut [] = python_outputs w_flash_mut [] /\ is_fresh w_flash_mut = true /\
+  firmware_outputs_ir true w_flash_branch [0%nat] = Some [VList [VInt 255; VInt 0; VInt 255]] /\
+  python_outputs w_flash_branch [0%nat] = Some [VList [VInt 255; VInt 0]] /\
+  firmware_outputs_ir false w_flash_branch [0%nat] = Some [VList [VInt 255; VInt 0]] /\ flow_ok w_flash_branch = true.
+Proof. exact alias_refuted. Qed.
+Print Assumptions C03_node_alias_refuted.
+
+(* the flow guard counts every len(name) INSIDE a right-hand side / append / remove argument as a fold site (the real
+   translation folds it through the environment; ConstFlow.lens_agree): re-assigning s in a branch puts a later
+   q = len(s) + 1 outside the guard, re-assigning another name does not *)
+Example C03_rhs_len_is_a_fold_site :
+  flow_ok (w_rhs_len [SAssign n_s (EStr [97;98;99;100])]) = false /\
+  flow_ok (w_rhs_len [SAssign n_msg (EStr [97;98;99;100])]) = true /\
+  python_outputs (w_rhs_len [SAssign n_msg (EStr [97;98;99;100])]) [1%nat] = Some [VInt 3].
+Proof. exact rhs_len_fold_site. Qed.
+Print Assumptions C03_rhs_len_is_a_fold_site.
